@@ -16,6 +16,16 @@ type Extension interface {
 	GetTrack(stopTimeUpdate *gtfsrt.TripUpdate_StopTimeUpdate) *string
 }
 
+// PerFeedExtension is implemented by extensions that accumulate state while the entities of
+// one feed message are processed. ParseRealtime calls NewFeed once per message and uses the
+// returned extension for that message only, so one message cannot influence the next one and
+// a single Extension value can be reused for many messages.
+type PerFeedExtension interface {
+	Extension
+
+	NewFeed() Extension
+}
+
 type UpdateTripResult struct {
 	// Whether this trip should be skipped.
 	ShouldSkip bool
